@@ -9,3 +9,4 @@ import SplinkVerif.Generated.Arith
 import SplinkVerif.Model.BlockingAnalysis
 import SplinkVerif.Model.EM
 import SplinkVerif.Model.Estimators
+import SplinkVerif.Model.GraphMetrics
